@@ -108,6 +108,8 @@ func (e *eng) correspondence() {
 		e.corrIO(r)
 	}
 	e.corrChains(r)
+	e.corrAllocBoundary(r)
+	e.corrZeroWrite(r)
 	e.corrSound(r)
 	e.corrFlat(r)
 	e.corrGeom(r)
@@ -463,6 +465,250 @@ func (e *eng) corrChains(r *hx.Rng) {
 				c.Distinct(fmt.Sprintf("alloc|%d|%s|%d|%d", cfg.Kind, entries, size, prev))
 			}
 		}()
+	}
+}
+
+// corrZeroWrite: File.Write through a real handle against the Lean mirror that takes NO shortcut for an
+// empty buffer (Model/Fat/EmptyWrite.lean fileWriteRaw, driver op fat.zwrite): outcome (ok / panic),
+// the size the handle reports, the chain, the whole FAT and the non-empty WriteAt calls inside the
+// chain. Mostly zero-length writes - Write(nil) and Write([]byte{}) alternate - at every kind of
+// offset, the trigger of fat-empty-write-not-noop INCLUDED (the mirror extends / panics exactly as
+// the code does; `early` tells it once the code returns early), plus non-empty writes for contrast.
+func (e *eng) corrZeroWrite(r *hx.Rng) {
+	c := e.c
+	bounded := allocBoundedByData()
+	cfgs := []volCfg{{Kind: 12, Size: 64 * kib, Start: 0}, {Kind: 16, Size: 5 * mib, Start: 512}, {Kind: 32, Size: 256 * kib, Start: 0, BS: 512}, {Kind: 12, Size: 4 * mib, Start: 1024}}
+	for i := 0; i < c.N(48, 900); i++ {
+		id := fmt.Sprintf("cz%d", i)
+		rr := r.Fork()
+		if !c.Want(id) {
+			continue
+		}
+		func() {
+			defer func() {
+				if x := recover(); x != nil {
+					c.Stat("corr.panic-in-library")
+				}
+			}()
+			cfg := cfgs[i%len(cfgs)]
+			v, err := mkVol(cfg)
+			if err != nil {
+				return
+			}
+			dataStart, bpc, _, _, _, _ := v.base.VerifGeom()
+			for k := 0; k < rr.Intn(3); k++ {
+				if f, err := v.fs.OpenFile(fmt.Sprintf("pad%d", k), os.O_CREATE|os.O_RDWR); err == nil {
+					f.Write(pattern(rr, 1+rr.Intn(2*bpc)))
+					f.Close()
+				}
+			}
+			f, err := v.fs.OpenFile("subject.bin", os.O_CREATE|os.O_RDWR)
+			if err != nil {
+				return
+			}
+			size := []int{0, 0, 1, bpc - 1, bpc, bpc + 1, 2 * bpc, 2*bpc + 5}[rr.Intn(8)]
+			if size > 0 {
+				if _, err := f.Write(pattern(rr, size)); err != nil {
+					return
+				}
+			}
+			if rr.Chance(40) { // something allocated behind the subject: growth is not contiguous
+				if g, err := v.fs.OpenFile("behind", os.O_CREATE|os.O_RDWR); err == nil {
+					g.Write(pattern(rr, 1+rr.Intn(bpc)))
+					g.Close()
+				}
+			}
+			var off int
+			switch rr.Intn(8) {
+			case 0:
+				off = 0
+			case 1:
+				off = size
+			case 2:
+				off = rr.Intn(size + 1)
+			case 3:
+				off = (rr.Intn(size+1) / bpc) * bpc
+			case 4:
+				off = size + 1 + rr.Intn(2*bpc)
+			case 5:
+				off = (size/bpc + 1 + rr.Intn(2)) * bpc // a cluster boundary at or past EOF
+			case 6:
+				off = bpc
+			default:
+				off = rr.Intn(size + bpc + 1)
+			}
+			ln, seed := 0, 0
+			if rr.Chance(15) {
+				ln, seed = 1+rr.Intn(2*bpc), rr.Intn(251)
+			}
+			ff := f.(*fat12.File)
+			chain, err := ff.GetClusterChain()
+			if err != nil {
+				return
+			}
+			t := v.base.VerifTable()
+			max := t.MaxCluster()
+			lim := max
+			if bounded {
+				if rep := v.raw(); rep.Vol != nil && uint32(rep.Vol.ClusterCount+2) < lim {
+					lim = uint32(rep.Vol.ClusterCount + 2)
+				}
+			}
+			entries := tableNonzero(t)
+			if _, err := f.Seek(int64(off), io.SeekStart); err != nil {
+				return
+			}
+			v.dev.ResetLog()
+			buf := payload(seed, ln)
+			if ln == 0 && i%2 == 0 {
+				buf = nil
+			}
+			var werr error
+			perr := safely(func() error { _, werr = f.Write(buf); return nil })
+			trig := ln == 0 && zeroTrigger(int64(size), int64(off), bpc)
+			early := !e.emptyAsFound
+			c.Case(id, "fat.zwrite", kv("kind", cfg.Kind), kv("max", max), kv("lim", lim), kv("start", cfg.Start), kv("datastart", dataStart), kv("bpc", bpc),
+				"entries="+entries, "chain="+u32s(chain), kv("size", size), kv("off", off), kv("len", ln), kv("seed", seed), kv("early", b2i(early)))
+			switch {
+			case perr != nil:
+				c.Impl(id, "res=panic")
+				c.Stat("corr.zwrite.panic")
+			case werr != nil:
+				c.Impl(id, "res=refused")
+				c.Stat("corr.zwrite.refused")
+			default:
+				newChain, _ := ff.GetClusterChain()
+				st, _ := ff.Stat()
+				lo := cfg.Start + int64(dataStart)
+				inChain := func(o int64) bool {
+					for _, cl := range newChain {
+						s := lo + int64(cl-2)*int64(bpc)
+						if o >= s && o < s+int64(bpc) {
+							return true
+						}
+					}
+					return false
+				}
+				var ws []string
+				for _, ev := range v.dev.Log {
+					if !ev.Sync && ev.Len > 0 && inChain(ev.Off) {
+						ws = append(ws, fmt.Sprintf("%d:%d", ev.Off, ev.Len))
+					}
+				}
+				wss := "-"
+				if len(ws) > 0 {
+					wss = strings.Join(ws, ",")
+				}
+				c.Impl(id, "res=ok", kv("size", st.Size()), "chain="+u32s(newChain), "table="+tableNonzero(t), "ws="+wss, kv("trigger", b2i(trig)))
+				c.Stat("corr.zwrite.ok")
+			}
+			if ln == 0 {
+				c.Stat("corr.zwrite.zero-length")
+				if trig {
+					c.Stat("corr.zwrite.zero-length.on-trigger")
+				}
+			}
+			c.Distinct(fmt.Sprintf("zwrite|%d|%d|%d|%d|%d", cfg.Kind, len(chain), size, off, ln))
+			_ = safely(f.Close)
+		}()
+	}
+}
+
+// corrAllocBoundary sweeps allocateSpace's size boundaries on real tables against the Lean mirror
+// (fat.alloc): for a chain of L clusters every size in {0, 1, k*bpc-1, k*bpc, k*bpc+1} for k up to
+// L+2 - grow, exact, shrink, shrink to exactly one cluster (count = 1) and size 0 (count = 0: the
+// code keeps the first cluster, what a zero-length Write on an empty file and nothing else asks for).
+func (e *eng) corrAllocBoundary(r *hx.Rng) {
+	c := e.c
+	bounded := allocBoundedByData()
+	cfgs := []volCfg{{Kind: 12, Size: 64 * kib, Start: 0}, {Kind: 16, Size: 5 * mib, Start: 512}, {Kind: 32, Size: 256 * kib, Start: 0, BS: 512}}
+	lens := []int{1, 3}
+	if c.Thorough() {
+		lens = []int{1, 2, 3, 4, 7}
+	}
+	n := 0
+	for ci, cfg := range cfgs {
+		for _, L := range lens {
+			var sizes []uint64
+			probe, err := mkVol(cfg)
+			if err != nil {
+				continue
+			}
+			_, bpc, _, _, _, _ := probe.base.VerifGeom()
+			sizes = append(sizes, 0, 1)
+			for k := 1; k <= L+2; k++ {
+				sizes = append(sizes, uint64(k*bpc-1), uint64(k*bpc), uint64(k*bpc+1))
+			}
+			for _, size := range sizes {
+				id := fmt.Sprintf("cab%d-%d-%d", ci, L, size)
+				n++
+				if !c.Want(id) {
+					continue
+				}
+				func() {
+					defer func() {
+						if x := recover(); x != nil {
+							c.Stat("corr.panic-in-library")
+						}
+					}()
+					v, err := mkVol(cfg)
+					if err != nil {
+						return
+					}
+					t := v.base.VerifTable()
+					max := t.MaxCluster()
+					// a scattered chain of L clusters among 3..40 and a second chain in between (its clusters are not free)
+					perm := make([]uint32, 0, 38)
+					for x := uint32(3); x < 41 && x < max; x++ {
+						perm = append(perm, x)
+					}
+					for k := len(perm) - 1; k > 0; k-- {
+						j := r.Intn(k + 1)
+						perm[k], perm[j] = perm[j], perm[k]
+					}
+					ch, other := perm[:L], perm[L:L+2]
+					for k := 0; k < L-1; k++ {
+						t.SetCluster(ch[k], ch[k+1])
+					}
+					t.SetCluster(ch[L-1], t.EOCMarker())
+					t.SetCluster(other[0], other[1])
+					t.SetCluster(other[1], t.EOCMarker())
+					entries := tableNonzero(t)
+					var al []uint32
+					var aerr error
+					if e := safely(func() error { al, aerr = v.base.VerifAllocateSpace(size, ch[0]); return nil }); e != nil {
+						c.Stat("corr.alloc-boundary.panic")
+						return
+					}
+					res := "err"
+					if aerr == nil {
+						res = "ok=" + u32s(al)
+					}
+					lim := max
+					if bounded {
+						if rep := v.raw(); rep.Vol != nil && uint32(rep.Vol.ClusterCount+2) < lim {
+							lim = uint32(rep.Vol.ClusterCount + 2)
+						}
+					}
+					c.Case(id, "fat.alloc", kv("kind", cfg.Kind), kv("max", max), kv("lim", lim), kv("bpc", bpc), "entries="+entries, kv("size", size), kv("prev", ch[0]))
+					c.Impl(id, res, "table="+tableNonzero(t))
+					count := int((size + uint64(bpc) - 1) / uint64(bpc))
+					switch {
+					case count > L:
+						c.Stat("corr.alloc-boundary.grow")
+					case count == L:
+						c.Stat("corr.alloc-boundary.exact")
+					case count == 0:
+						c.Stat("corr.alloc-boundary.shrink-count0")
+					case count == 1:
+						c.Stat("corr.alloc-boundary.shrink-count1")
+					default:
+						c.Stat("corr.alloc-boundary.shrink")
+					}
+					c.Distinct(fmt.Sprintf("allocb|%d|%d|%d", cfg.Kind, L, size))
+				}()
+			}
+		}
 	}
 }
 
@@ -826,6 +1072,17 @@ func (e *eng) corrFlat(r *hx.Rng) {
 						ln = int(cfg.Size) // cannot fit
 					}
 					seed := r.Intn(251)
+					if r.Chance(18) {
+						// a zero-length write (the model: nothing changes); off the trigger of fat-empty-write-not-noop while that is in the tree
+						zoff := r.Intn(sizes[nm] + bpc + 1)
+						if r.Chance(40) {
+							zoff = 0
+						}
+						if !(e.emptyAsFound && zeroTrigger(int64(sizes[nm]), int64(zoff), bpc)) {
+							off, ln, seed = zoff, 0, 0
+							c.Stat("corr.flat.zero-length-write")
+						}
+					}
 					tok = fmt.Sprintf("w:%s:%d:%d:%d", nm, off, ln, seed)
 					f, e2 := v.fs.OpenFile(nm, os.O_RDWR)
 					if e2 != nil {
